@@ -13,7 +13,10 @@ oracle/search : on the implementation: contract of least_squares (fun == residua
                 param_bounds, verbose) on strongly noisy increasing data with outliers through all four entry points; exact-data recovery
                 for the well-posed models in every row order, best-of-list vs single fits (smallest reported AND smallest independently recomputed
                 error), bounds by name for permuted / partial dictionaries with binding caps (same outcome as in param_names order), branch
-                clause (perturbing the other branch changes nothing), PointIsotherm.from_modelisotherm lies on the model / keeps metadata /
+                clause (perturbing the other branch changes nothing; on tables whose branches are NOT monotone in pressure and whose marks are given by the user,
+                through every fitting entry point: the optimiser receives exactly the rows of the requested branch, model.pressure_range / loading_range span
+                them, the reported error is the rms on them, the parameters equal those of a fit of exactly these rows given as arrays and are a least-squares
+                solution on them by an independent re-optimisation), PointIsotherm.from_modelisotherm lies on the model / keeps metadata /
                 re-fits to the same curve, pressure / loading / temperature unit covariance of the fitted curve
 """
 import math
@@ -38,7 +41,9 @@ MANIFEST = dict(
          "the optimiser at position i is the entry of param_names[i] for ANY key order of the user's dictionary (induction over the name list and over "
          "Permutation), a missing name is a KeyError, so every fitted parameter lies within the bounds given for ITS name; the normalising range is "
          "max - min of the fitted rows, non-negative and invariant under any re-ordering of the rows (desorption branch, unsorted arrays), hence the "
-         "reported error is non-negative and order independent; only rows of the requested branch reach the optimiser; for data generated exactly "
+         "reported error is non-negative and order independent; only rows of the requested branch reach the optimiser - a point is fitted iff it is a row MARKED with that branch, "
+         "the two branches partition the table, whatever the pressure sequence (the branch guess - rows after the first pressure maximum - is modelled too, executed beside the code for "
+         "tables without marks, and shown not to be idempotent on a non-monotone branch: marks must travel with the rows); for data generated exactly "
          "from the model the cost at the generator is 0 = global minimum and every zero-cost parameter vector reproduces the data; a change of "
          "loading or pressure unit maps (bound-constrained) least-squares minimisers to minimisers and changes the curve only by that unit change, for "
          "every family whose parameter vector absorbs the factor entry-wise - shown for the formulas GENERATED from pygaps/modelling (Henry, Langmuir, "
@@ -53,7 +58,7 @@ MANIFEST = dict(
 
 HEADER = """From Coq Require Import String.
 From Coq Require Import QArith ZArith List.
-From PG Require Import Lib.Num Lib.Py Lib.Show Fit.FitLogic Fit.FitShow.
+From PG Require Import Lib.Num Lib.Py Lib.Show Fit.FitLogic Fit.FitShow Fit.FitBranch.
 Import ListNotations. Open Scope Z_scope.
 """
 ORDERS = ['inc', 'dec', 'shuf']
@@ -247,7 +252,127 @@ def close_figures():
         pass
 
 
-EXTRA_TARGETS = ['Fit/FitShow.vo']
+def nonmonotone_branches(rnd, shape):
+    """a measured table whose branches are NOT monotone in pressure. -> (pressure, loading, marks (0 ads / 1 des, as the user gives them),
+    True when the marks coincide by construction with a split after the single pressure maximum). Adsorption rows lie on one noisy curve, desorption
+    rows on a higher one (hysteresis), so that a fit of a subset or of rows of the other branch is another fit."""
+    pmax = lu(rnd, 1, 10)
+    up = lambda lo, hi, n: list(np.linspace(lo, hi, n))
+    down = lambda hi, lo, n: list(np.linspace(hi, lo, n))
+    na, nd = rnd.randint(8, 18), rnd.randint(7, 14)
+    rule = False
+    if shape == 'des-creep':                     # the desorption run starts below the turning point and its pressure creeps up once before falling
+        s = pmax * rnd.uniform(0.86, 0.93)
+        creep = [s, s * rnd.uniform(1.01, 1.04)] + ([s * 1.045] if rnd.random() < 0.4 else [])
+        blocks = [(0, up(0.05 * pmax, pmax, na)), (1, creep + down(s * 0.85, 0.08 * pmax, nd))]
+        rule = True
+    elif shape == 'ads-overshoot':               # overshoot and relaxation at the end of the adsorption run; the user marks those rows as adsorption
+        tail = [pmax * 0.97, pmax * 0.98] + ([pmax * 0.975] if rnd.random() < 0.4 else [])
+        blocks = [(0, up(0.05 * pmax, pmax, na) + tail), (1, down(0.9 * pmax, 0.1 * pmax, nd))]
+    elif shape == 'scan-loop':                   # a scanning loop inside the adsorption run
+        blocks = [(0, up(0.05 * pmax, 0.6 * pmax, na // 2 + 2) + down(0.52 * pmax, 0.4 * pmax, 3) + up(0.45 * pmax, pmax, na // 2 + 3)),
+                  (1, down(0.95 * pmax, 0.1 * pmax, nd))]
+        rule = True
+    elif shape == 'turning-point-marked-late':   # the first row the user marks as desorption lies ABOVE the last adsorption pressure
+        blocks = [(0, up(0.05 * pmax, 0.96 * pmax, na)), (1, [pmax] + down(0.9 * pmax, 0.1 * pmax, nd))]
+    elif shape == 'alternating-blocks':          # two cycles measured one after the other
+        blocks = [(0, up(0.05 * pmax, 0.6 * pmax, na // 2 + 3)), (1, down(0.55 * pmax, 0.1 * pmax, nd // 2 + 3)),
+                  (0, up(0.15 * pmax, pmax, na // 2 + 3)), (1, down(0.93 * pmax, 0.08 * pmax, nd // 2 + 3))]
+    else:                                        # the whole table is one branch (branch='ads' / 'des'), pressure rising, dipping, relaxing
+        b = rnd.choice([0, 1])
+        blocks = [(b, up(0.05 * pmax, pmax, na) + [pmax * 0.95, pmax * 0.97] + down(0.9 * pmax, 0.5 * pmax, 4))]
+    ka, m_ = lu(rnd, 0.3, 3) / pmax * 5, lu(rnd, 1, 8)
+    kd, md = ka * rnd.uniform(1.5, 4), m_ * rnd.uniform(1.0, 1.2)
+    sigma = rnd.choice([0.01, 0.02, 0.03])
+    P, L, marks = [], [], []
+    for b, ps in blocks:
+        for p in ps:
+            K, M = (ka, m_) if b == 0 else (kd, md)
+            P.append(float(p)); L.append(float(M * K * p / (1 + K * p) * (1 + rnd.gauss(0, sigma)))); marks.append(b)
+    return np.array(P), np.array(L), marks, rule
+
+
+def branch_entries(marks, wm, rule):
+    """every documented way of asking for a fit of one branch of marked data (entry/how the marks are given)"""
+    e = ['frame-marks', 'from_isotherm-frame-marks', 'guess-frame-marks', 'from_pointisotherm/frame', 'from_pointisotherm/bools', 'model_iso/bools',
+         'model_iso/frame', 'from_pointisotherm-list/bools', 'from_pointisotherm-list/frame', 'arrays', 'from_isotherm-arrays', 'guess-arrays']
+    if len(set(marks)) == 1:
+        e += ['from_pointisotherm/string', 'model_iso/string', 'from_pointisotherm-list/string']
+    if rule:
+        e += ['frame-nomarks', 'guess-frame-nomarks', 'from_pointisotherm/guessed', 'model_iso/guessed', 'from_pointisotherm-list/guessed']
+    return e
+
+
+def fit_branch_entry(entry, k, P, L, marks, want):
+    import pygaps
+    import pygaps.modelling as pgm
+    from pygaps.core.baseisotherm import BaseIsotherm
+    head, _, how = entry.partition('/')
+    cands = [k, 'Henry' if k != 'Henry' else 'Langmuir']
+    kw = kw_iso('absolute')
+    wm = 0 if want == 'ads' else 1
+    df = pd.DataFrame({'pressure': P, 'loading': L})
+    if 'nomarks' not in head and how not in ('bools', 'string', 'guessed'):
+        df['branch'] = list(marks)
+    sel = [j for j, m_ in enumerate(marks) if m_ == wm]
+    fkw = dict(isotherm_data=df, pressure_key='pressure', loading_key='loading', branch=want)
+    akw = dict(pressure=P[sel], loading=L[sel], branch=want)
+    if head in ('frame-marks', 'frame-nomarks'):
+        return call(pygaps.ModelIsotherm, model=k, **fkw, **kw)
+    if head == 'arrays':
+        return call(pygaps.ModelIsotherm, model=k, **akw, **kw)
+    if head in ('guess-frame-marks', 'guess-frame-nomarks'):
+        return call(pygaps.ModelIsotherm.guess, models=cands, **fkw, **kw)
+    if head == 'guess-arrays':
+        return call(pygaps.ModelIsotherm.guess, models=cands, **akw, **kw)
+    if head == 'from_isotherm-frame-marks':
+        return call(pygaps.ModelIsotherm.from_isotherm, BaseIsotherm(**kw), model=k, **fkw)
+    if head == 'from_isotherm-arrays':
+        return call(pygaps.ModelIsotherm.from_isotherm, BaseIsotherm(**kw), model=k, **akw)
+    if how == 'frame':
+        piso = pygaps.PointIsotherm(isotherm_data=df, pressure_key='pressure', loading_key='loading', **kw)
+    elif how == 'bools':
+        piso = pygaps.PointIsotherm(pressure=list(P), loading=list(L), branch=[bool(m_) for m_ in marks], **kw)
+    elif how == 'string':
+        piso = pygaps.PointIsotherm(pressure=list(P), loading=list(L), branch='ads' if marks[0] == 0 else 'des', **kw)
+    else:
+        piso = pygaps.PointIsotherm(pressure=list(P), loading=list(L), **kw)
+    if head == 'from_pointisotherm':
+        return call(pygaps.ModelIsotherm.from_pointisotherm, piso, branch=want, model=k)
+    if head == 'model_iso':
+        return call(pgm.model_iso, piso, branch=want, model=k)
+    return call(pygaps.ModelIsotherm.from_pointisotherm, piso, branch=want, model=cands)
+
+
+def ls_gain_on_rows(m, p, l):
+    """independent least squares (scipy, not observed) on the given rows started at the parameters of the fitted model m:
+    -> relative drop of the sum of squares (0 for a least-squares solution on these rows), None when not applicable"""
+    import scipy.optimize as so
+    from pygaps.modelling import get_isotherm_model
+    if m.calculates != 'loading' or m.name == 'Virial':
+        return None
+    with np.errstate(all='ignore'), warnings.catch_warnings():
+        warnings.simplefilter('ignore')
+        try:
+            m2 = get_isotherm_model(m.name)
+            m2.__init_parameters__({'temperature': T_K})
+            names = list(m2.param_names)
+
+            def fun(x):
+                for n, v in zip(names, x):
+                    m2.params[n] = v
+                return np.asarray(m2.loading(p), dtype=float) - l
+            x0 = np.array([float(m.params[n]) for n in names])
+            c0 = 0.5 * float(np.sum(fun(x0)**2))
+            if not math.isfinite(c0) or c0 < 1e-24:
+                return None
+            res = so.least_squares(fun, x0, bounds=([m.param_bounds[n][0] for n in names], [m.param_bounds[n][1] for n in names]))
+            return max(0.0, (c0 - float(res.cost)) / c0)
+        except Exception:  # noqa
+            return None
+
+
+EXTRA_TARGETS = ['Fit/FitShow.vo', 'Fit/FitBranch.vo']
 
 
 def run(rep, tier, seed):
@@ -707,6 +832,90 @@ def _explore(rep, tier, seed, proxy):
             terms.append('cmp_select %s [%s] (%d) %s' % ('true' if des else 'false', rows, occode(oc), us))
             term_what.append(('branch-rows', replay))
 
+    # ---------------- R: branch selection in EVERY fitting entry point on data whose selected branch is NOT monotone in pressure and whose marks are
+    #                  given by the user (a 'branch' column, a list of booleans, branch='ads' / 'des' for the whole table): a desorption run whose pressure
+    #                  creeps up once, overshoot / relaxation at the end of the adsorption run, a scanning loop, a turning point marked elsewhere than at the
+    #                  pressure maximum, alternating blocks. The fitted rows must be EXACTLY the rows of the requested branch: rows handed to the
+    #                  optimiser, model.pressure_range / loading_range, the reported error recomputed on the branch rows, the same parameters as a fit of
+    #                  exactly those rows handed over as arrays, and no better least-squares solution on the branch rows near the returned one
+    rnd_r = random.Random(seed * 6007 + 41)
+    shapes = ['des-creep', 'ads-overshoot', 'scan-loop', 'turning-point-marked-late', 'alternating-blocks', 'all-one-branch-overshoot']
+    r_models = ['Langmuir', 'Henry', 'Freundlich', 'Quadratic', 'DSLangmuir', 'Toth', 'TemkinApprox']
+    for it in range(60 if big else 14):
+        shape = shapes[it % len(shapes)]
+        k = r_models[it % len(r_models)] if it < len(r_models) else rnd_r.choice(r_models)
+        P, L, marks, marks_are_max_rule = nonmonotone_branches(rnd_r, shape)
+        for want in ('ads', 'des'):
+            wm = 0 if want == 'ads' else 1
+            sel = [j for j, m_ in enumerate(marks) if m_ == wm]
+            if len(sel) < 6:
+                continue
+            sel_p, sel_l = P[sel], L[sel]
+            mono = bool(np.all(np.diff(sel_p) > 0) or np.all(np.diff(sel_p) < 0))
+            oc_ref, ref = call(pygaps.ModelIsotherm, pressure=sel_p, loading=sel_l, model=k, branch=want, **kw_iso('absolute'))
+            for entry in branch_entries(marks, wm, marks_are_max_rule):
+                replay = dict(kind='branch-nonmonotone', model=k, want=want, shape=shape, entry=entry, p=P.tolist(), l=L.tolist(), marks=list(marks))
+                n0 = len(proxy.calls)
+                oc, iso = fit_branch_entry(entry, k, P, L, marks, want)
+                note('branch-nonmonotone/%s/%s/%s%s' % (shape, entry, oc, '' if not mono else '/monotone'))
+                recs = [c for c in proxy.calls[n0:]]
+                label = 'branch-nonmonotone-' + entry
+                if oc == 'ParameterError':
+                    fail('branch-nonmonotone', '%s refused the %s branch (%d rows, marks given by the user, pressure not monotone: %s) with ParameterError' % (
+                        entry, want, len(sel), shape), replay, k)
+                    continue
+                if oc != 'Ok' or not recs:
+                    continue          # CalculationError: a reported non-convergence returns nothing to judge
+                # (1) the rows every least_squares call of this entry received
+                bad_rows = [c for c in recs if not (len(c['kw']['args']) == 2 and np.array_equal(np.asarray(c['kw']['args'][0], dtype=float), sel_p)
+                                                    and np.array_equal(np.asarray(c['kw']['args'][1], dtype=float), sel_l))]
+                if bad_rows:
+                    used_p = np.asarray(bad_rows[0]['kw']['args'][0], dtype=float)
+                    fail('branch-nonmonotone', '%s on the %s branch (%s; marks given, pressure not monotone): the optimiser received %d rows (pressures %r), the branch has the %d rows %r' % (
+                        entry, want, shape, len(used_p), used_p.tolist(), len(sel_p), sel_p.tolist()), replay, k)
+                    continue
+                m = iso.model
+                # (2) the ranges stored with the model are those of the branch rows
+                rp, rl = tuple(float(v) for v in m.pressure_range), tuple(float(v) for v in m.loading_range)
+                if rp != (float(min(sel_p)), float(max(sel_p))) or rl != (float(min(sel_l)), float(max(sel_l))):
+                    fail('branch-nonmonotone', '%s on the %s branch (%s): model.pressure_range %r / loading_range %r, the branch rows span %r / %r' % (
+                        entry, want, shape, rp, rl, (float(min(sel_p)), float(max(sel_p))), (float(min(sel_l)), float(max(sel_l)))), replay, k)
+                    continue
+                # (3) clauses of any successful fit, on the rows of the branch (error identity recomputed through the model's own methods; Coq rmse term)
+                rec = [c for c in recs if c['res'] is not None and np.array_equal(np.array(c['res'].x, dtype=float), np.array([m.params[n] for n in m.params], dtype=float))]
+                if rec:
+                    check_fit(iso, sel_p, sel_l, rec[-1], replay, label)
+                # (4) the same curve as a fit of exactly these rows handed over as arrays
+                if oc_ref == 'Ok' and ref.model.name == m.name:
+                    same = all(abs(float(m.params[n]) - float(ref.model.params[n])) <= 1e-9 * max(abs(float(ref.model.params[n])), 1e-300) for n in m.params)
+                    if not (same and abs(float(m.rmse) - float(ref.model.rmse)) <= 1e-9 * max(abs(float(ref.model.rmse)), 1e-300)):
+                        fail('branch-nonmonotone', '%s on the %s branch (%s) gives %r rmse %r; the rows of that branch handed over as arrays give %r rmse %r' % (
+                            entry, want, shape, {n: float(v) for n, v in m.params.items()}, float(m.rmse), {n: float(v) for n, v in ref.model.params.items()},
+                            float(ref.model.rmse)), replay, k)
+                        continue
+                # (5) independent least squares on the branch rows, started at the returned parameters: the sum of squares on the BRANCH must not drop
+                gain = ls_gain_on_rows(m, sel_p, sel_l)
+                if gain is not None:
+                    stats['worst_branch_ls_gain'] = max(stats.get('worst_branch_ls_gain', 0.0), gain)
+                    if gain > 1e-4:
+                        fail('branch-nonmonotone', '%s on the %s branch (%s): the returned %s parameters %r are not a least-squares solution on the rows of the branch - re-optimising '
+                             'on those %d rows lowers the sum of squares by a factor %.3g' % (entry, want, shape, m.name, {n: float(v) for n, v in m.params.items()}, len(sel_p), gain), replay, k)
+                        continue
+                nontrivial.add(('branch-nonmonotone', shape, entry, want, m.name, mono))
+                # Coq: the model's `select` on the marked rows vs the rows the optimiser received
+                if 'nomarks' in entry or entry.endswith('/guessed'):
+                    # the table went in WITHOUT marks: the model's branch guess (Fit/FitBranch.v guess_marks, QNum) decides the rows
+                    a = recs[-1]['kw']['args']
+                    terms.append('cmp_guess_select %s [%s] (%d) [%s]' % ('true' if wm else 'false', '; '.join('(%s, %s)' % (zme(u), zme(v)) for u, v in zip(P, L)), occode(oc),
+                                                                     '; '.join('(%s, %s)' % (zme(u), zme(v)) for u, v in zip(a[0], a[1]))))
+                    term_what.append(('branch-rows-guessed-marks', replay))
+                elif entry.split('/')[0] not in ('arrays', 'from_isotherm-arrays', 'guess-arrays') and rnd_r.random() < 0.4:
+                    a = recs[-1]['kw']['args']
+                    rows = '; '.join('(%s, %s, %s)' % (zme(u), zme(v), 'true' if c_ else 'false') for u, v, c_ in zip(P, L, marks))
+                    us = '[' + '; '.join('(%s, %s)' % (zme(u), zme(v)) for u, v in zip(a[0], a[1])) + ']'
+                    terms.append('cmp_select %s [%s] (%d) %s' % ('true' if wm else 'false', rows, occode(oc), us))
+                    term_what.append(('branch-rows-nonmonotone', replay))
+
     # ---------------- G: initial_guess_bounds (clamp)
     for it in range(300 if big else 40):
         k = rnd.choice(ALL_MODELS)
@@ -799,7 +1008,12 @@ def _explore(rep, tier, seed, proxy):
                              'soft_l1 / huber / cauchy / arctan with / without f_scale, ftol / xtol / gtol / max_nfev / method / x_scale / tr_solver / jac; user guess; '
                              'user bounds; verbose) on data with 3-25% noise and 0-3 outliers made increasing by sorting or a running maximum, through ModelIsotherm(arrays), '
                              'ModelIsotherm(DataFrame), from_pointisotherm and model_iso; a third of the candidate lists fitted with optimization_params; candidate lists of 2-5 models incl. repeated names and "guess" on arrays '
-                             'in three orders and on the ads / des branch of a two-branch DataFrame (explicit or guessed branch column); two-branch isotherms; 8 unit changes')
+                             'in three orders and on the ads / des branch of a two-branch DataFrame (explicit or guessed branch column); two-branch isotherms; 8 unit changes; '
+                             'tables whose branches are NOT monotone in pressure with marks given by the user (desorption run creeping up once, overshoot / relaxation at the end of '
+                             'the adsorption run, scanning loop, turning point marked after the pressure maximum, two cycles in alternating blocks, whole table one branch) x '
+                             'both branches x every fitting entry point (constructor with arrays / DataFrame with and without branch column, from_isotherm, guess, '
+                             'from_pointisotherm and model_iso on point isotherms whose marks come from a branch column / a list of booleans / branch=\'ads\'|\'des\' / the guess, '
+                             'single model and model list)')
     rep.cov['correspondence'] = {'terms_compared_in_coq': len(terms), 'disagreements': n_dis,
                                  'what': 'FitLogic (QNum) vs implementation: clamp (exact), rmse^2 with the range computed by the model from the rows handed over (1e-9, sign), '
                                          'bound / start vectors by name from the dictionaries in the user key order (exact), rows handed to the optimiser (exact), best-of-list position'}
@@ -808,6 +1022,8 @@ def _explore(rep, tier, seed, proxy):
                              'thresholds': {'exact rmse': 1e-6, 'exact deviation/range': 1e-5, 'rmse identity': 1e-6, 'unit covariance deviation/range': 1e-4}}
     rep.cov['samples'] += [{'fit': k, 'count': v} for k, v in list(sorted(hist.items()))[:3]]
     rep.cov['validation']['fits_with_a_robust_loss_checked'] = stats.get('robust_loss_fits', 0)
+    rep.cov['validation']['worst_relative_drop_of_the_sum_of_squares_when_re_optimising_on_the_branch_rows'] = stats.get('worst_branch_ls_gain', 0.0)
+    rep.cov['validation']['thresholds']['re-optimisation on the branch rows (relative drop of the sum of squares)'] = 1e-4
     rep.cov['trusted_base'] += ['hand-written model Fit/FitLogic.v (validated by the correspondence above)',
                                 'translator tools/py2v_fitglue.py (rmse line, residual and range of IsothermBaseModel.fit / Virial.fit -> Gen/FitGlueGen.v; the rest of fit is '
                                 'compared with the statements the translator was written against)',
@@ -878,6 +1094,16 @@ def replay(d):
         oc, m = fit_with_options(r['entry'], r['model'], p, l, r['mode'], r['optimization_params'], r['verbose'], extra)
         print('fit ->', oc, None if oc != 'Ok' else (m.model.name, {a: float(b) for a, b in m.model.params.items()}, 'reported rmse', float(m.model.rmse),
                                                      'actual rms deviation / (max - min)', actual_rmse(m.model, p, l)[0]))
+    elif k == 'branch-nonmonotone':
+        P, L, marks, want = np.array(r['p']), np.array(r['l']), r['marks'], r['want']
+        sel = [j for j, m_ in enumerate(marks) if m_ == (0 if want == 'ads' else 1)]
+        print('table: pressure', P.tolist()); print('marks (0 ads / 1 des):', marks)
+        print('requested branch %r: %d rows, pressures %r' % (want, len(sel), P[sel].tolist()))
+        oc, m = fit_branch_entry(r['entry'], r['model'], P, L, marks, want)
+        print('entry', r['entry'], '->', oc, None if oc != 'Ok' else (m.model.name, {a: float(b) for a, b in m.model.params.items()}, 'pressure_range', tuple(m.model.pressure_range),
+              'loading_range', tuple(m.model.loading_range), 'reported rmse', float(m.model.rmse), 'rms deviation / (max - min) on the branch rows', actual_rmse(m.model, P[sel], L[sel])[0]))
+        oc2, m2 = call(pygaps.ModelIsotherm, pressure=P[sel], loading=L[sel], model=r['model'], branch=want, **kw_iso('absolute'))
+        print('the rows of the branch as arrays ->', oc2, None if oc2 != 'Ok' else ({a: float(b) for a, b in m2.model.params.items()}, 'rmse', float(m2.model.rmse)))
     elif k in ('noisy', 'guess', 'named'):
         p, l = np.array(r['p']), np.array(r['l'])
         okw = lambda: {} if not r.get('optimization_params') else dict(optimization_params=dict(r['optimization_params']))
